@@ -11,6 +11,16 @@ use crate::snap::{Dt, Snap};
 
 pub const SLOTS: usize = 3;
 
+/// Progress line for the driver's hang watchdog (worker mode only; never part of the event log).
+pub fn heartbeat(n: usize) {
+    if HEARTBEAT.load(std::sync::atomic::Ordering::Relaxed) {
+        use std::io::Write;
+        let mut o = std::io::stdout().lock();
+        let _ = writeln!(o, "{{\"hb\":{n}}}");
+        let _ = o.flush();
+    }
+}
+
 /// set by the worker subcommand: print a progress line after every history step
 pub static HEARTBEAT: std::sync::atomic::AtomicBool = std::sync::atomic::AtomicBool::new(false);
 
